@@ -123,6 +123,7 @@ class _RT(object):
         self.last_obs = None
         self.last_end = None
         self.spawn = None   # set by the scheduler harness for 'par' steps
+        self.pworker = None
         self.tls = threading.local()
 
     @property
@@ -360,9 +361,12 @@ def _perform(target, step, obs):
                     _perform(target, s, sub)
             except BaseException as e:  # noqa
                 sub.append(['thread-died', type(e).__name__])
-        t = threading.Thread(target=tmain, name='mc-worker')
-        t.start()
-        t.join()
+        if getattr(RT, 'pworker', None) is not None:
+            RT.pworker.run(tmain)   # a long-lived pool thread: its thread-local state survives between runs
+        else:
+            t = threading.Thread(target=tmain, name='mc-worker')
+            t.start()
+            t.join()
         if obs is not None:
             obs.extend(sub)
     elif do == 'par':
@@ -468,6 +472,10 @@ def make_spy(inner, save_raises=False):
         def create_new_recording(self, category):
             r = self.inner.create_new_recording(category)
             self.log.append(('create', r.id, category))
+            if getattr(self, 'bad_meta', False):   # a storage driver whose recording refuses metadata (framework-internal failure)
+                def refuse(metadata):
+                    raise IOError('recording refuses metadata by design')
+                r.add_metadata = refuse
             return r
 
         def save_recording(self, recording):
@@ -529,6 +537,8 @@ class Env(object):
             self.cls.__qualname__ = 'Sub' + name
             setattr(THIS, 'Sub' + name, self.cls)
         self.kind = kind
+        self.classes = {name: (self.cls, kind)}
+        self.default_cls = name
         self.draws = None
         if draws is not None:
             self.script_draws(draws)
@@ -554,10 +564,18 @@ class Env(object):
         RT.tr = self.tr
         RT.funcs = self.funcs
 
+    def add_class(self, name, kind='inst', ext=None, params=None):
+        c = build_class(self.tr, name, kind, ext, params, self.funcs)
+        self.classes[name] = (c, kind)
+        return c
+
     def invoke(self, prog):
-        if self.kind == 'inst':
-            return self.cls().execute(prog)
-        return self.cls.execute(prog)
+        cls, kind = self.classes.get(prog.get('cls') or self.default_cls, (self.cls, self.kind))
+        if cls is self.classes[self.default_cls][0]:
+            cls = self.cls   # (possibly the subclass)
+        if kind == 'inst':
+            return cls().execute(prog)
+        return cls.execute(prog)
 
 
 class Run(object):
@@ -593,7 +611,42 @@ def record(prog, env=None, **envkw):
     return r
 
 
-def replay(env, rec_id, prog):
+class PersistentWorker(object):
+    """One long-lived worker thread (like a pool thread of the service) that runs callables one at a time."""
+
+    def __init__(self):
+        import queue
+        self.q = queue.Queue()
+        self.t = threading.Thread(target=self._loop, name='mc-pool-worker', daemon=True)
+        self.t.start()
+
+    def _loop(self):
+        while True:
+            fn, box, ev = self.q.get()
+            if fn is None:
+                ev.set()
+                return
+            try:
+                box.append(('ok', fn()))
+            except BaseException as e:  # noqa
+                box.append(('exc', e))
+            ev.set()
+
+    def run(self, fn):
+        box, ev = [], threading.Event()
+        self.q.put((fn, box, ev))
+        ev.wait()
+        if box[0][0] == 'exc':
+            raise box[0][1]
+        return box[0][1]
+
+    def stop(self):
+        ev = threading.Event()
+        self.q.put((None, None, ev))
+        ev.wait()
+
+
+def replay(env, rec_id, prog, after=None):
     env.bind()
     RT.mode = 'replay'
     j0, c0, l0 = len(RT.journal), len(RT.calls), len(env.spy.log)
@@ -601,7 +654,11 @@ def replay(env, rec_id, prog):
     r.env = env
     RT.last_obs = None
     try:
-        r.playback = env.tr.play(rec_id, lambda recording: env.invoke(prog))
+        def pf(recording):
+            env.invoke(prog)
+            if after is not None:   # the playback function itself fails after running the operation
+                raise after('playback function fails by design')
+        r.playback = env.tr.play(rec_id, pf)
         r.exc = None
     except BaseException as e:
         r.playback = None
